@@ -2,7 +2,7 @@
    /repo/solver/learn_pb.go, and of abs / min / Lit.Var / Lit.IsPositive) under the semantics of Model/GoIR2.v
    computes what the hand-written model Model/CP.v computes, for every input. *)
 From Coq Require Import List ZArith Bool String Lia Arith ZifyBool ZifyNat.
-From GS Require Import Spec.Base Spec.PB Model.CP Model.GoIR2 Gen.GoSrc2 Proofs.GoIR2 Gen.GoTypes Proofs.GoTypesGlue.
+From GS Require Import Spec.Base Spec.PB Model.CP Proofs.CP Model.GoIR2 Gen.GoSrc2 Proofs.GoIR2 Gen.GoTypes Proofs.GoTypesGlue.
 Import ListNotations.
 Open Scope string_scope.
 Open Scope list_scope.
@@ -1071,3 +1071,591 @@ Proof.
     + exact Logic.I.
     + lia.
 Qed.
+
+(* ================================================================== pbSet.backtrackLevel *)
+
+Lemma eval_list_one : forall st e v, eval st e = EV v -> eval_list st [e] = LV [v].
+Proof. intros st e v H. cbn [eval_list]. rewrite H. reflexivity. Qed.
+
+Lemma hd_skipn : forall (l : list Z) i, hd 0 (skipn i l) = nth i l 0.
+Proof.
+  intros l i. rewrite <- (Nat.add_0_r i) at 2. rewrite <- nth_skipn_add. destruct (skipn i l); reflexivity.
+Qed.
+
+Lemma tl_skipn : forall (l : list Z) i, tl (skipn i l) = skipn (S i) l.
+Proof.
+  induction l as [|x l IH]; intros i; [destruct i; reflexivity|].
+  destruct i as [|i]; [reflexivity|]. cbn [skipn]. rewrite IH. reflexivity.
+Qed.
+
+Definition bt_body : stmt :=
+  Eval cbv in match f_body src_pbSet_backtrackLevel with
+              | SSeq _ (SSeq _ (SSeq _ (SSeq (SRange _ _ _ b) _))) => b | _ => SSkip end.
+
+Lemma src_backtrackLevel_shape : f_body src_pbSet_backtrackLevel =
+  SSeq (SCall "v" "Lit.Var" [EVar "falsified"])
+    (SSeq (SCall "lvl" "abs" [EIdx (EFld (EVar "s") 8) (EVar "v")])
+    (SSeq (SSet "maxLvl" (EInt 1))
+    (SSeq (SRange "i" "w" (EFld (EVar "pb") 0) bt_body)
+    (SReturn (EVar "maxLvl"))))).
+Proof. reflexivity. Qed.
+
+Theorem backtrackLevel_run : forall h sw sc ws card vs sm strail model trail lit,
+  pbset_at h sw sc (ws, card) -> solver_at h vs sm strail model trail ->
+  0 <= lit ->
+  let v := Z.to_nat (Z.quot lit 2) in
+  (v < length model)%nat ->
+  (forall i, (i < length ws)%nat -> nth i ws 0 <> 0 -> i <> v -> (i < length model)%nat) ->
+  run_to go_funs "pbSet.backtrackLevel" [pbset_val sw sc; vs; VInt lit] h
+    (OReturn (VInt (backtrack_level model v (ws, card))) h).
+Proof.
+  intros h sw sc ws card vs sm strail model trail lit Hrep Hsol Hlit v Hv Hmod.
+  pose proof (pbset_at_len _ _ _ _ Hrep) as Hlen. cbn [fst] in Hlen.
+  destruct Hrep as (Hokw & Hokc & Hne & Hlc & Hrw & Hrc). cbn [fst snd] in *.
+  destruct Hsol as (fs & -> & Hnf & Hfm & Hft & Hokm & Hrm & Hokt & Hrt).
+  unfold fld_Solver_model in Hfm.
+  assert (Hlm : s_len sm = length model) by (rewrite <- Hrm; symmetry; apply length_sl_read; exact Hokm).
+  assert (Hvz : Z.quot lit 2 = Z.of_nat v).
+  { unfold v. rewrite Z2Nat.id; [reflexivity|]. apply Z.quot_pos; lia. }
+  set (lvl := Z.abs (nth v model 0)).
+  eapply run_to_intro; [reflexivity|reflexivity|]. rewrite src_backtrackLevel_shape.
+  eapply runs_seq.
+  { eapply runs_call_run; [reflexivity|apply Lit_Var_run]. }
+  cbn [locals hp upd String.eqb Ascii.eqb Bool.eqb]. rewrite Hvz.
+  eapply runs_seq.
+  { eapply runs_call_run; [|apply abs_run]. apply eval_list_one.
+    apply (eval_idx_sl _ _ _ sm v); [eapply eval_fld; [reflexivity|exact Hfm]|reflexivity|lia]. }
+  cbn [locals hp upd String.eqb Ascii.eqb Bool.eqb]. rewrite Hrm. fold lvl.
+  eapply runs_seq; [apply runs_set; reflexivity|].
+  unfold set_local. cbn [locals hp upd String.eqb Ascii.eqb Bool.eqb].
+  set (st0 := St [("pb", pbset_val sw sc); ("s", VStruct fs); ("falsified", VInt lit);
+                  ("v", VInt (Z.of_nat v)); ("lvl", VInt lvl); ("maxLvl", VInt 1)] h).
+  set (I := fun (i : nat) (sti : state) =>
+    lookup "pb" (locals sti) = Some (pbset_val sw sc) /\ lookup "s" (locals sti) = Some (VStruct fs) /\
+    lookup "v" (locals sti) = Some (VInt (Z.of_nat v)) /\ lookup "lvl" (locals sti) = Some (VInt lvl) /\
+    hp sti = h /\
+    exists m, lookup "maxLvl" (locals sti) = Some (VInt m) /\
+      backtrack_ws i v lvl (skipn i model) (skipn i ws) m = backtrack_level model v (ws, card)).
+  destruct (runs_range_inv_c go_funs "i" "w" (EFld (EVar "pb") 0) bt_body st0 sw I)
+    as ([loc' h'] & Hrun & (L1 & L2 & L3 & L4 & Hh & m & L5 & Hm)).
+  - reflexivity.
+  - unfold I, st0. cbn [locals hp]. refine (conj eq_refl (conj eq_refl (conj eq_refl (conj eq_refl (conj eq_refl _))))).
+    exists 1. split; reflexivity.
+  - intros i [loc0 hp0] Hi (L1 & L2 & L3 & L4 & Hh & m & L5 & Hm). cbn [locals hp] in *. subst hp0.
+    unfold range_pre, get_sl, set_local. cbn [String.eqb Ascii.eqb Bool.eqb locals hp].
+    rewrite <- nth_sl_read by exact Hi. rewrite Hrw.
+    set (w := nth i ws 0).
+    set (pre := St (upd "w" (VInt w) (upd "i" (VInt (Z.of_nat i)) loc0)) h).
+    rewrite (skipn_nth_cons ws i) in Hm by lia. fold w in Hm. cbn [backtrack_ws] in Hm.
+    rewrite hd_skipn, tl_skipn in Hm.
+    assert (Eiv : (Z.of_nat i =? Z.of_nat v) = Nat.eqb i v).
+    { destruct (Nat.eqb_spec i v); [apply Z.eqb_eq|apply Z.eqb_neq]; lia. }
+    assert (Econd : eval pre (EBin Or (EBin Eq (EVar "w") (EInt 0)) (EBin Eq (EVar "i") (EVar "v"))) =
+                    EV (VBool ((w =? 0) || Nat.eqb i v))).
+    { unfold pre. ev. destruct (w =? 0); cbn [orb]; [reflexivity|]. ev. rewrite Eiv. reflexivity. }
+    destruct ((w =? 0) || Nat.eqb i v) eqn:Ec.
+    + exists (OContinue pre), pre. split; [|split; [apply goes_on_continue|]].
+      * unfold bt_body. apply runs_seq_abrupt; [|exact Logic.I].
+        eapply runs_if_true; [exact Econd|apply runs_continue].
+      * unfold I, pre. cbn [locals hp]. lk.
+        refine (conj L1 (conj L2 (conj L3 (conj L4 (conj eq_refl _))))). exists m. split; [exact L5|exact Hm].
+    + apply orb_false_iff in Ec. destruct Ec as (Ew & Eni).
+      assert (Him : (i < length model)%nat).
+      { apply Hmod; [lia|apply Z.eqb_neq; exact Ew|apply Nat.eqb_neq; exact Eni]. }
+      set (li := Z.abs (nth i model 0)) in *.
+      set (st1 := St (upd "lvlI" (VInt li) (locals pre)) h).
+      assert (R0 : runs go_funs (SIf (EBin Or (EBin Eq (EVar "w") (EInt 0)) (EBin Eq (EVar "i") (EVar "v")))
+                                   SContinue SSkip) pre (ONormal pre)).
+      { eapply runs_if_false; [exact Econd|apply runs_skip]. }
+      assert (R1 : runs go_funs (SCall "lvlI" "abs" [EIdx (EFld (EVar "s") 8) (EVar "i")]) pre (ONormal st1)).
+      { assert (Ea : eval pre (EIdx (EFld (EVar "s") 8) (EVar "i")) = EV (VInt (nth i model 0))).
+        { rewrite (eval_idx_sl pre _ _ sm i); [unfold pre; cbn [hp]; rewrite Hrm; reflexivity| | |lia].
+          - eapply eval_fld; [apply eval_var; unfold pre; cbn [locals]; lk; exact L2|exact Hfm].
+          - unfold pre. ev. reflexivity. }
+        eapply runs_call_run; [apply eval_list_one; exact Ea|]. apply abs_run. }
+      assert (Ec2 : eval st1 (EBin And (EBin Gt (EVar "lvlI") (EVar "maxLvl")) (EBin Ne (EVar "lvlI") (EVar "lvl"))) =
+                    EV (VBool ((m <? li) && negb (li =? lvl)))).
+      { unfold st1, pre. ev. destruct (m <? li); cbn [andb]; [|reflexivity]. ev. reflexivity. }
+      destruct ((m <? li) && negb (li =? lvl)) eqn:Eb.
+      * eexists (ONormal _), _. split; [|split; [apply goes_on_normal|]].
+        -- unfold bt_body. eapply runs_seq; [exact R0|]. eapply runs_seq; [exact R1|].
+           eapply runs_if_true; [exact Ec2|]. apply runs_set. unfold st1, pre. ev. reflexivity.
+        -- unfold I, set_local, st1, pre. cbn [locals hp]. lk.
+           refine (conj L1 (conj L2 (conj L3 (conj L4 (conj eq_refl _))))). exists li. split; [reflexivity|exact Hm].
+      * exists (ONormal st1), st1. split; [|split; [apply goes_on_normal|]].
+        -- unfold bt_body. eapply runs_seq; [exact R0|]. eapply runs_seq; [exact R1|].
+           eapply runs_if_false; [exact Ec2|apply runs_skip].
+        -- unfold I, st1, pre. cbn [locals hp]. lk.
+           refine (conj L1 (conj L2 (conj L3 (conj L4 (conj eq_refl _))))). exists m. split; [exact L5|exact Hm].
+  - cbn [locals hp] in *. subst h'.
+    rewrite Hlen, (skipn_all ws) in Hm. cbn [backtrack_ws] in Hm. subst m.
+    eapply runs_seq; [exact Hrun|].
+    apply (runs_return go_funs (EVar "maxLvl") (St loc' h)). apply eval_var. exact L5.
+Qed.
+
+(* ================================================================== final forms
+
+   [returns g args h v h']: with enough fuel (and then with any larger amount) the call of [g] on [args] in heap [h]
+   returns [v] and leaves the heap [h'];  [panics g args h]: it panics. *)
+
+Definition returns (g : string) (args : list val) (h : heap) (v : val) (h' : heap) : Prop :=
+  exists fuel, forall fuel', (fuel <= fuel')%nat -> run go_funs fuel' g args h = OReturn v h'.
+
+Definition panics (g : string) (args : list val) (h : heap) : Prop :=
+  exists fuel, forall fuel', (fuel <= fuel')%nat -> run go_funs fuel' g args h = OPanic.
+
+Lemma returns_intro : forall g args h v h', run_to go_funs g args h (OReturn v h') -> returns g args h v h'.
+Proof. intros g args h v h' H. exact (run_to_ge _ _ _ _ _ H). Qed.
+
+Lemma panics_intro : forall g args h, run_to go_funs g args h OPanic -> panics g args h.
+Proof. intros g args h H. exact (run_to_ge _ _ _ _ _ H). Qed.
+
+Lemma returns_not_panics : forall g args h v h', returns g args h v h' -> ~ panics g args h.
+Proof.
+  intros g args h v h' (f1 & H1) (f2 & H2).
+  specialize (H1 (Nat.max f1 f2) (Nat.le_max_l _ _)). specialize (H2 (Nat.max f1 f2) (Nat.le_max_r _ _)).
+  congruence.
+Qed.
+
+Theorem abs_final : forall a h, returns "abs" [VInt a] h (VInt (Z.abs a)) h.
+Proof. intros a h. apply returns_intro, abs_run. Qed.
+
+Theorem min_final : forall a b h, returns "min" [VInt a; VInt b] h (VInt (Z.min a b)) h.
+Proof. intros a b h. apply returns_intro, min_run. Qed.
+
+Theorem Lit_Var_final : forall l h, returns "Lit.Var" [VInt l] h (VInt (Z.quot l 2)) h.
+Proof. intros l h. apply returns_intro, Lit_Var_run. Qed.
+
+Theorem Lit_IsPositive_final : forall l h, returns "Lit.IsPositive" [VInt l] h (VBool (Z.rem l 2 =? 0)) h.
+Proof. intros l h. apply returns_intro, Lit_IsPositive_run. Qed.
+
+(* on the encoding of a DIMACS literal [i <> 0]: the 0-based variable and the sign *)
+Theorem Lit_Var_IntToLit_final : forall i h, i <> 0 ->
+  returns "Lit.Var" [VInt (go_IntToLit i)] h (VInt (Z.abs i - 1)) h.
+Proof. intros i h Hi. rewrite <- (quot_IntToLit i Hi). apply Lit_Var_final. Qed.
+
+Theorem Lit_IsPositive_IntToLit_final : forall i h, i <> 0 ->
+  returns "Lit.IsPositive" [VInt (go_IntToLit i)] h (VBool (0 <? i)) h.
+Proof. intros i h Hi. rewrite <- (rem_IntToLit i Hi). apply Lit_IsPositive_final. Qed.
+
+Theorem divideBy_final : forall h sw sc ws card c, c <> 0 -> pbset_at h sw sc (ws, card) ->
+  exists h', returns "pbSet.divideBy" [pbset_val sw sc; VInt c] h (VInt 0) h' /\
+    only_wins [sw; sc] h h' /\ pbset_at h' sw sc (divide_by c (ws, card)).
+Proof.
+  intros h sw sc ws card c Hc Hrep. destruct (divideBy_run h sw sc ws card c Hc Hrep) as (h' & R & F & P).
+  exists h'. split; [apply returns_intro; exact R|split; assumption].
+Qed.
+
+Theorem divideBy_zero_final : forall h sw sc ws card, pbset_at h sw sc (ws, card) ->
+  panics "pbSet.divideBy" [pbset_val sw sc; VInt 0] h.
+Proof. intros h sw sc ws card Hrep. apply panics_intro. eapply divideBy_zero_panics. exact Hrep. Qed.
+
+Theorem clash_final : forall h sw1 sc1 sw2 sc2 ws1 c1 ws2 c2 vs,
+  pbset_at h sw1 sc1 (ws1, c1) -> pbset_at h sw2 sc2 (ws2, c2) ->
+  s_arr sw1 <> s_arr sw2 -> s_arr sw1 <> s_arr sc2 -> s_arr sc1 <> s_arr sw2 -> s_arr sc1 <> s_arr sc2 ->
+  (length ws1 <= length ws2)%nat ->
+  exists h', returns "pbSet.clash" [pbset_val sw1 sc1; vs; pbset_val sw2 sc2] h (VInt 0) h' /\
+    only_wins [sw1; sc1] h h' /\
+    pbset_at h' sw1 sc1 (clash (ws1, c1) (ws2, c2)) /\ pbset_at h' sw2 sc2 (ws2, c2).
+Proof.
+  intros h sw1 sc1 sw2 sc2 ws1 c1 ws2 c2 vs H1 H2 D1 D2 D3 D4 Hle.
+  destruct (clash_run h sw1 sc1 sw2 sc2 ws1 c1 ws2 c2 vs H1 H2 D1 D2 D3 D4 Hle) as (h' & R & F & P1 & P2).
+  exists h'. split; [apply returns_intro; exact R|]. exact (conj F (conj P1 P2)).
+Qed.
+
+Theorem clash_short_final : forall h sw1 sc1 sw2 sc2 ws1 c1 ws2 c2 vs,
+  pbset_at h sw1 sc1 (ws1, c1) -> pbset_at h sw2 sc2 (ws2, c2) ->
+  s_arr sw1 <> s_arr sw2 -> s_arr sw1 <> s_arr sc2 -> s_arr sc1 <> s_arr sw2 -> s_arr sc1 <> s_arr sc2 ->
+  (length ws2 < length ws1)%nat ->
+  panics "pbSet.clash" [pbset_val sw1 sc1; vs; pbset_val sw2 sc2] h.
+Proof. intros. apply panics_intro. eapply clash_short_panics; eassumption. Qed.
+
+Theorem falsifies_final : forall h sw sc ws card l, pbset_at h sw sc (ws, card) ->
+  l <> 0 -> Z.abs l <= Z.of_nat (length ws) ->
+  returns "pbSet.falsifies" [pbset_val sw sc; VInt (go_IntToLit l)] h (VBool (falsifies (ws, card) l)) h.
+Proof. intros. apply returns_intro. apply falsifies_run; assumption. Qed.
+
+Theorem falsifies_lit_final : forall h sw sc ws card lit, pbset_at h sw sc (ws, card) ->
+  0 <= lit -> Z.quot lit 2 < Z.of_nat (length ws) ->
+  returns "pbSet.falsifies" [pbset_val sw sc; VInt lit] h (VBool (falsifies (ws, card) (go_Lit_Int lit))) h.
+Proof. intros. apply returns_intro. apply falsifies_run_lit; assumption. Qed.
+
+Theorem falsifies_out_of_range_final_observation : forall h sw sc ws card l, pbset_at h sw sc (ws, card) ->
+  l <> 0 -> Z.of_nat (length ws) < Z.abs l ->
+  panics "pbSet.falsifies" [pbset_val sw sc; VInt (go_IntToLit l)] h /\ falsifies (ws, card) l = false.
+Proof.
+  intros h sw sc ws card l Hrep Hl Ho.
+  destruct (falsifies_out_of_range_observation h sw sc ws card l Hrep Hl Ho) as (R & E).
+  split; [apply panics_intro; exact R|exact E].
+Qed.
+
+Theorem roundToOne_final : forall h sw sc ws card vs sm strail model trail locked lvl s',
+  pbset_at h sw sc (ws, card) -> solver_at h vs sm strail model trail ->
+  s_arr sm <> s_arr sw -> s_arr sm <> s_arr sc ->
+  (forall j, (j < length ws)%nat -> nth j ws 0 <> 0 -> (j < length model)%nat) ->
+  round_to_one model locked (ws, card) = Some s' ->
+  exists h', returns "pbSet.roundToOne" [pbset_val sw sc; vs; VInt (Z.of_nat locked); VInt lvl] h (VInt 0) h' /\
+    only_wins [sw; sc] h h' /\ pbset_at h' sw sc s'.
+Proof.
+  intros h sw sc ws card vs sm strail model trail locked lvl s' H1 H2 D1 D2 Hm Hr.
+  destruct (roundToOne_run h sw sc ws card vs sm strail model trail locked lvl s' H1 H2 D1 D2 Hm Hr)
+    as (h' & R & F & P).
+  exists h'. split; [apply returns_intro; exact R|split; assumption].
+Qed.
+
+Theorem roundToOne_none_final : forall h sw sc ws card vs sm strail model trail locked lvl,
+  pbset_at h sw sc (ws, card) -> solver_at h vs sm strail model trail ->
+  round_to_one model locked (ws, card) = None ->
+  panics "pbSet.roundToOne" [pbset_val sw sc; vs; VInt (Z.of_nat locked); VInt lvl] h.
+Proof. intros. apply panics_intro. eapply roundToOne_none_panics; eassumption. Qed.
+
+Theorem backtrackLevel_final : forall h sw sc ws card vs sm strail model trail lit,
+  pbset_at h sw sc (ws, card) -> solver_at h vs sm strail model trail ->
+  0 <= lit ->
+  (Z.to_nat (Z.quot lit 2) < length model)%nat ->
+  (forall i, (i < length ws)%nat -> nth i ws 0 <> 0 -> i <> Z.to_nat (Z.quot lit 2) -> (i < length model)%nat) ->
+  returns "pbSet.backtrackLevel" [pbset_val sw sc; vs; VInt lit] h
+    (VInt (backtrack_level model (Z.to_nat (Z.quot lit 2)) (ws, card))) h.
+Proof. intros. apply returns_intro. eapply backtrackLevel_run; eassumption. Qed.
+
+(* ---- composed with the soundness of the rules (Proofs/CP.v) *)
+
+Theorem clash_src_sound : forall h sw1 sc1 sw2 sc2 a b vs,
+  pbset_at h sw1 sc1 a -> pbset_at h sw2 sc2 b ->
+  s_arr sw1 <> s_arr sw2 -> s_arr sw1 <> s_arr sc2 -> s_arr sc1 <> s_arr sw2 -> s_arr sc1 <> s_arr sc2 ->
+  length (fst a) = length (fst b) ->
+  exists h' s', returns "pbSet.clash" [pbset_val sw1 sc1; vs; pbset_val sw2 sc2] h (VInt 0) h' /\
+    pbset_at h' sw1 sc1 s' /\ pbset_at h' sw2 sc2 b /\ only_wins [sw1; sc1] h h' /\
+    forall m, sat_pbset m a = true -> sat_pbset m b = true -> sat_pbset m s' = true.
+Proof.
+  intros h sw1 sc1 sw2 sc2 [ws1 c1] [ws2 c2] vs H1 H2 D1 D2 D3 D4 Hlen. cbn [fst] in Hlen.
+  destruct (clash_final h sw1 sc1 sw2 sc2 ws1 c1 ws2 c2 vs H1 H2 D1 D2 D3 D4 ltac:(lia)) as (h' & R & F & P1 & P2).
+  exists h', (clash (ws1, c1) (ws2, c2)). refine (conj R (conj P1 (conj P2 (conj F _)))).
+  intros m Ha Hb. apply clash_sound; [cbn [fst]; lia|exact Ha|exact Hb].
+Qed.
+
+Theorem divideBy_src_sound : forall h sw sc s c,
+  pbset_at h sw sc s -> 0 < c -> ~ (- c < snd s < 0) ->
+  exists h' s', returns "pbSet.divideBy" [pbset_val sw sc; VInt c] h (VInt 0) h' /\
+    pbset_at h' sw sc s' /\ only_wins [sw; sc] h h' /\
+    forall m, sat_pbset m s = true -> sat_pbset m s' = true.
+Proof.
+  intros h sw sc [ws card] c Hrep Hc Hok.
+  destruct (divideBy_final h sw sc ws card c ltac:(lia) Hrep) as (h' & R & F & P).
+  exists h', (divide_by c (ws, card)). refine (conj R (conj P (conj F _))).
+  intros m Hs. apply divide_sound; assumption.
+Qed.
+
+Theorem roundToOne_src_sound : forall h sw sc s vs sm strail model trail locked lvl s',
+  pbset_at h sw sc s -> solver_at h vs sm strail model trail ->
+  s_arr sm <> s_arr sw -> s_arr sm <> s_arr sc ->
+  (forall j, (j < length (fst s))%nat -> nth j (fst s) 0 <> 0 -> (j < length model)%nat) ->
+  round_to_one model locked s = Some s' -> round_ok model locked s ->
+  exists h', returns "pbSet.roundToOne" [pbset_val sw sc; vs; VInt (Z.of_nat locked); VInt lvl] h (VInt 0) h' /\
+    pbset_at h' sw sc s' /\ only_wins [sw; sc] h h' /\
+    forall m, sat_pbset m s = true -> sat_pbset m s' = true.
+Proof.
+  intros h sw sc [ws card] vs sm strail model trail locked lvl s' H1 H2 D1 D2 Hm Hr Hok. cbn [fst] in Hm.
+  destruct (roundToOne_final h sw sc ws card vs sm strail model trail locked lvl s' H1 H2 D1 D2 Hm Hr)
+    as (h' & R & F & P).
+  exists h'. refine (conj R (conj P (conj F _))).
+  intros m Hs. eapply round_sound; eassumption.
+Qed.
+
+(* ================================================================== corners where the source panics and the model answers *)
+
+Lemma first_such : forall (P : nat -> Prop), (forall j, {P j} + {~ P j}) -> forall n,
+  (forall i, (i < n)%nat -> ~ P i) \/ (exists j, (j < n)%nat /\ P j /\ forall i, (i < j)%nat -> ~ P i).
+Proof.
+  intros P dec n. induction n as [|n IH].
+  - left. intros i Hi. lia.
+  - destruct IH as [Hnone|(j & Hj & HP & Hb)].
+    + destruct (dec n) as [Hn|Hn].
+      * right. exists n. split; [lia|]. split; [exact Hn|]. intros i Hi. apply Hnone. exact Hi.
+      * left. intros i Hi. destruct (Nat.eq_dec i n) as [->|Hne]; [exact Hn|apply Hnone; lia].
+    + right. exists j. split; [lia|]. split; assumption.
+Qed.
+
+(* roundToOne: a variable present in the constraint has no cell in s.model: [s.model[j]] is out of range,
+   while [round_to_one] (which reads a missing assignment as 0) answers Some *)
+Theorem roundToOne_short_model_observation : forall h sw sc ws card vs sm strail model trail locked lvl,
+  pbset_at h sw sc (ws, card) -> solver_at h vs sm strail model trail ->
+  s_arr sm <> s_arr sw -> s_arr sm <> s_arr sc ->
+  Z.abs (nth locked ws 0) <> 0 -> Z.abs (nth locked ws 0) <> 1 ->
+  (exists j, (j < length ws)%nat /\ nth j ws 0 <> 0 /\ (length model <= j)%nat) ->
+  run_to go_funs "pbSet.roundToOne" [pbset_val sw sc; vs; VInt (Z.of_nat locked); VInt lvl] h OPanic /\
+  round_to_one model locked (ws, card) <> None.
+Proof.
+  intros h sw sc ws card vs sm strail model trail locked lvl Hrep Hsol Dmw Dmc Hwi0 Hwi1 Hex.
+  pose proof (pbset_at_len _ _ _ _ Hrep) as Hlen. cbn [fst] in Hlen.
+  set (wi := Z.abs (nth locked ws 0)) in *.
+  assert (E1 : (wi =? 1) = false) by (apply Z.eqb_neq; exact Hwi1).
+  assert (E0 : (wi =? 0) = false) by (apply Z.eqb_neq; exact Hwi0).
+  split; [|unfold round_to_one; cbn [fst]; fold wi; rewrite E1, E0; discriminate].
+  destruct (Nat.lt_ge_cases locked (length ws)) as [Hl|Hl];
+    [|exfalso; apply Hwi0; unfold wi; rewrite nth_overflow by exact Hl; reflexivity].
+  pose proof (round_callwi_run h sw sc ws card vs locked lvl Hrep Hl) as Rwi. cbv zeta in Rwi. fold wi in Rwi.
+  set (st1 := St (upd "wi" (VInt wi)
+     [("pb", pbset_val sw sc); ("s", vs); ("locked", VInt (Z.of_nat locked)); ("lvl", VInt lvl)]) h) in *.
+  set (P := fun j : nat => nth j ws 0 <> 0 /\ (length model <= j)%nat).
+  assert (Pdec : forall j, {P j} + {~ P j}).
+  { intros j. unfold P. destruct (Z.eq_dec (nth j ws 0) 0) as [E|E]; [right; tauto|].
+    destruct (le_lt_dec (length model) j) as [L|L]; [left; tauto|right; lia]. }
+  destruct (first_such P Pdec (length ws)) as [Hnone|(j & Hj & (Hnz & Hjm) & Hb)].
+  { exfalso. destruct Hex as (j & Hj & Hnz & Hjm). apply (Hnone j Hj). split; assumption. }
+  eapply run_to_intro; [reflexivity|reflexivity|]. rewrite src_roundToOne_shape.
+  apply runs_seq_abrupt; [|exact Logic.I]. eapply runs_seq; [exact Rwi|].
+  eapply runs_seq; [unfold round_ifone; eapply runs_if_false; [ev; rewrite E1; reflexivity|apply runs_skip]|].
+  apply runs_seq_abrupt; [|exact Logic.I].
+  apply (runs_range_inv_abrupt go_funs "j" "wj" (EFld (EVar "pb") 0) round_body st1 sw
+           (round_inv h sw sc vs ws card wi model) j OPanic).
+  - reflexivity.
+  - unfold round_inv, st1. cbn [locals hp firstn skipn weaken_ws fst snd app]. lk.
+    pose proof Hrep as (Hokw & Hokc & Hne & Hlc & Hrw & Hrc). cbn [fst snd] in *.
+    refine (conj eq_refl (conj eq_refl (conj eq_refl (conj (only_wins_refl _ _) (conj Hrw _))))).
+    rewrite Hrc. f_equal. lia.
+  - intros j0 stj Hj0 HIj. eapply round_turn; try eassumption; try lia.
+    intros Hnz0. destruct (Nat.lt_ge_cases j0 (length model)) as [L|L]; [exact L|].
+    exfalso. apply (Hb j0 Hj0). split; assumption.
+  - intros stj HIj. rewrite (round_pre _ _ _ _ _ _ _ _ _ _ Hj Hlen HIj).
+    destruct stj as [locj hpj]. destruct HIj as (L1 & L2 & L3 & Hfr & _). cbn [locals hp] in *.
+    destruct Hsol as (fs & -> & Hnf & Hfm & Hft & Hokm & Hrm & Hokt & Hrt).
+    unfold fld_Solver_model in Hfm.
+    assert (Hlm : s_len sm = length model) by (rewrite <- Hrm; symmetry; apply length_sl_read; exact Hokm).
+    assert (Ew : (nth j ws 0 =? 0) = false) by (apply Z.eqb_neq; exact Hnz).
+    unfold round_body.
+    eapply runs_seq; [eapply runs_if_false; [ev; rewrite Ew; reflexivity|apply runs_skip]|].
+    apply runs_seq_abrupt; [|exact Logic.I]. apply runs_set_panic.
+    set (pre := St (upd "wj" (VInt (nth j ws 0)) (upd "j" (VInt (Z.of_nat j)) locj)) hpj).
+    apply (eval_idx_oob pre _ _ sm (Z.of_nat j)); [|unfold pre; ev; reflexivity|lia].
+    eapply eval_fld; [apply eval_var; unfold pre; cbn [locals]; lk; exact L2|exact Hfm].
+  - exact Logic.I.
+  - lia.
+Qed.
+
+(* backtrackLevel: the variable of the falsified literal has no cell in s.model: the Go code panics
+   ([s.model[v]] out of range), the model reads the missing level as 0 *)
+Theorem backtrackLevel_out_of_range_observation : forall h sw sc ws card vs sm strail model trail lit,
+  pbset_at h sw sc (ws, card) -> solver_at h vs sm strail model trail ->
+  0 <= lit -> (length model <= Z.to_nat (Z.quot lit 2))%nat ->
+  run_to go_funs "pbSet.backtrackLevel" [pbset_val sw sc; vs; VInt lit] h OPanic /\
+  backtrack_level model (Z.to_nat (Z.quot lit 2)) (ws, card) =
+  backtrack_ws 0 (Z.to_nat (Z.quot lit 2)) 0 model ws 1.
+Proof.
+  intros h sw sc ws card vs sm strail model trail lit Hrep Hsol Hlit Hv.
+  split; [|unfold backtrack_level; rewrite nth_overflow by exact Hv; reflexivity].
+  destruct Hsol as (fs & -> & Hnf & Hfm & Hft & Hokm & Hrm & Hokt & Hrt).
+  unfold fld_Solver_model in Hfm.
+  assert (Hlm : s_len sm = length model) by (rewrite <- Hrm; symmetry; apply length_sl_read; exact Hokm).
+  assert (Hq : 0 <= Z.quot lit 2) by (apply Z.quot_pos; lia).
+  eapply run_to_intro; [reflexivity|reflexivity|]. rewrite src_backtrackLevel_shape.
+  eapply runs_seq.
+  { eapply runs_call_run; [reflexivity|apply Lit_Var_run]. }
+  cbn [locals hp upd String.eqb Ascii.eqb Bool.eqb].
+  apply runs_seq_abrupt; [|exact Logic.I].
+  eapply runs_call_arg_panic; [reflexivity|]. cbn [eval_list].
+  rewrite (eval_idx_oob _ _ _ sm (Z.quot lit 2)); [reflexivity| |reflexivity|lia].
+  eapply eval_fld; [reflexivity|exact Hfm].
+Qed.
+
+(* ================================================================== pbSet.onlyFalsified
+
+   Model/CP.v has no model of this function; here is one, on the internal encoding of the literals of the trail:
+   walk the trail from [ptr] down; stop at the first literal whose level is not [lvl]; the answer is the only
+   literal met whose negation is in the constraint, -1 when there is none or more than one. *)
+
+Fixpoint only_falsified_from (s : pbset) (model trail : list Z) (lvl : Z) (n : nat) (res : Z) : Z :=
+  match n with
+  | O => res
+  | S k =>
+    let lit := nth k trail 0 in
+    if negb (Z.abs (nth (Z.to_nat (Z.quot lit 2)) model 0) =? lvl) then res
+    else if falsifies s (go_Lit_Int lit)
+         then (if negb (res =? -1) then -1 else only_falsified_from s model trail lvl k lit)
+         else only_falsified_from s model trail lvl k res
+  end.
+
+Definition only_falsified (s : pbset) (model trail : list Z) (ptr lvl : Z) : Z :=
+  only_falsified_from s model trail lvl (Z.to_nat (ptr + 1)) (-1).
+
+Definition of_body : stmt :=
+  Eval cbv in match f_body src_pbSet_onlyFalsified with
+              | SSeq _ (SSeq (SSeq _ (SFor _ _ b)) _) => b | _ => SSkip end.
+
+Definition of_cond : expr := EBin Ge (EVar "ptr") (EInt 0).
+
+Lemma src_onlyFalsified_shape : f_body src_pbSet_onlyFalsified =
+  SSeq (SSet "res" (EInt (-1)))
+    (SSeq (SSeq SSkip (SFor of_cond SSkip of_body)) (SReturn (EVar "res"))).
+Proof. reflexivity. Qed.
+
+Lemma onlyFalsified_loop : forall h sw sc ws card fs sm strail model trail lvl,
+  pbset_at h sw sc (ws, card) -> solver_at h (VStruct fs) sm strail model trail ->
+  forall n, (n <= length trail)%nat ->
+  (forall k, (k < n)%nat -> 0 <= nth k trail 0 /\
+     (Z.to_nat (Z.quot (nth k trail 0%Z) 2) < length model)%nat /\
+     (Z.to_nat (Z.quot (nth k trail 0%Z) 2) < length ws)%nat) ->
+  forall res st,
+  lookup "pb" (locals st) = Some (pbset_val sw sc) -> lookup "s" (locals st) = Some (VStruct fs) ->
+  lookup "lvl" (locals st) = Some (VInt lvl) -> lookup "ptr" (locals st) = Some (VInt (Z.of_nat n - 1)) ->
+  lookup "res" (locals st) = Some (VInt res) -> hp st = h ->
+  exists o, runs go_funs (SFor of_cond SSkip of_body) st o /\
+    (o = OReturn (VInt (only_falsified_from (ws, card) model trail lvl n res)) h \/
+     exists st', o = ONormal st' /\ hp st' = h /\
+       lookup "res" (locals st') = Some (VInt (only_falsified_from (ws, card) model trail lvl n res))).
+Proof.
+  intros h sw sc ws card fs sm strail model trail lvl Hrep Hsol.
+  pose proof Hsol as (fs' & Efs & Hnf & Hfm & Hft & Hokm & Hrm & Hokt & Hrt).
+  inversion Efs. subst fs'. clear Efs.
+  unfold fld_Solver_model in Hfm. unfold fld_Solver_trail in Hft.
+  assert (Hlm : s_len sm = length model) by (rewrite <- Hrm; symmetry; apply length_sl_read; exact Hokm).
+  assert (Hlt : s_len strail = length trail) by (rewrite <- Hrt; symmetry; apply length_sl_read; exact Hokt).
+  induction n as [|k IH]; intros Hn Hb res [loc0 hp0] Lpb Ls Llvl Lptr Lres Hh; cbn [locals hp] in *; subst hp0.
+  - exists (ONormal (St loc0 h)). split.
+    + apply runs_for_false. unfold of_cond. ev. reflexivity.
+    + right. exists (St loc0 h). cbn [only_falsified_from locals hp]. auto.
+  - replace (Z.of_nat (S k) - 1) with (Z.of_nat k) in Lptr by lia.
+    destruct (Hb k ltac:(lia)) as (Hlit & Hvm & Hvw).
+    cbn [only_falsified_from]. set (lit := nth k trail 0) in *. set (v := Z.to_nat (Z.quot lit 2)) in *.
+    assert (Hvz : Z.quot lit 2 = Z.of_nat v) by (unfold v; rewrite Z2Nat.id; [reflexivity|apply Z.quot_pos; lia]).
+    set (st := St loc0 h).
+    assert (Hc : eval st of_cond = EV (VBool true)).
+    { unfold st, of_cond. ev. f_equal. f_equal. lia. }
+    set (st1 := St (upd "lit" (VInt lit) loc0) h).
+    assert (R1 : runs go_funs (SSet "lit" (EIdx (EFld (EVar "s") 7) (EVar "ptr"))) st (ONormal st1)).
+    { apply runs_set. rewrite (eval_idx_sl st _ _ strail k); [unfold st; cbn [hp]; rewrite Hrt; reflexivity| | |lia].
+      - eapply eval_fld; [apply eval_var; exact Ls|exact Hft].
+      - apply eval_var. exact Lptr. }
+    set (st2 := St (upd "$1" (VInt (Z.of_nat v)) (locals st1)) h).
+    assert (R2 : runs go_funs (SCall "$1" "Lit.Var" [EVar "lit"]) st1 (ONormal st2)).
+    { unfold st2. rewrite <- Hvz. eapply runs_call_run; [|apply Lit_Var_run]. unfold st1. ev. reflexivity. }
+    set (lv := Z.abs (nth v model 0)).
+    set (st3 := St (upd "$2" (VInt lv) (locals st2)) h).
+    assert (R3 : runs go_funs (SCall "$2" "abs" [EIdx (EFld (EVar "s") 8) (EVar "$1")]) st2 (ONormal st3)).
+    { assert (Ea : eval st2 (EIdx (EFld (EVar "s") 8) (EVar "$1")) = EV (VInt (nth v model 0))).
+      { rewrite (eval_idx_sl st2 _ _ sm v); [unfold st2; cbn [hp]; rewrite Hrm; reflexivity| | |lia].
+        - eapply eval_fld; [apply eval_var; unfold st2, st1; cbn [locals]; lk; exact Ls|exact Hfm].
+        - unfold st2, st1. ev. reflexivity. }
+      eapply runs_call_run; [apply eval_list_one; exact Ea|]. apply abs_run. }
+    assert (E4 : eval st3 (EBin Ne (EVar "$2") (EVar "lvl")) = EV (VBool (negb (lv =? lvl)))).
+    { unfold st3, st2, st1. ev. reflexivity. }
+    destruct (negb (lv =? lvl)) eqn:Elv.
+    + (* out of the level: return res *)
+      exists (OReturn (VInt res) h). split; [|left; reflexivity].
+      apply runs_for_body_abrupt; [exact Hc| |exact Logic.I].
+      unfold of_body. eapply runs_seq; [exact R1|]. apply runs_seq_abrupt; [|exact Logic.I].
+      eapply runs_seq; [exact R2|]. eapply runs_seq; [exact R3|].
+      eapply runs_if_true; [exact E4|].
+      apply (runs_return go_funs (EVar "res") st3). apply eval_var. unfold st3, st2, st1. cbn [locals]. lk. exact Lres.
+    + set (b := falsifies (ws, card) (go_Lit_Int lit)).
+      set (st4 := St (upd "$3" (VBool b) (locals st3)) h).
+      assert (R4 : runs go_funs (SSeq (SCall "$1" "Lit.Var" [EVar "lit"])
+                     (SSeq (SCall "$2" "abs" [EIdx (EFld (EVar "s") 8) (EVar "$1")])
+                        (SIf (EBin Ne (EVar "$2") (EVar "lvl")) (SReturn (EVar "res")) SSkip))) st1 (ONormal st3)).
+      { eapply runs_seq; [exact R2|]. eapply runs_seq; [exact R3|].
+        eapply runs_if_false; [exact E4|apply runs_skip]. }
+      assert (R5 : runs go_funs (SCall "$3" "pbSet.falsifies" [EVar "pb"; EVar "lit"]) st3 (ONormal st4)).
+      { eapply runs_call_run; [|apply (falsifies_run_lit h sw sc ws card lit Hrep Hlit); lia].
+        unfold st3, st2, st1. ev. reflexivity. }
+      assert (E6 : eval st4 (EVar "$3") = EV (VBool b)) by (unfold st4; ev; reflexivity).
+      assert (Hptr : forall loc, lookup "ptr" loc = Some (VInt (Z.of_nat k)) ->
+                runs go_funs (SSet "ptr" (EBin Sub (EVar "ptr") (EInt 1))) (St loc h)
+                  (ONormal (St (upd "ptr" (VInt (Z.of_nat k - 1)) loc) h))).
+      { intros loc L. apply runs_set. ev. reflexivity. }
+      destruct b eqn:Eb.
+      * destruct (negb (res =? -1)) eqn:Eres.
+        -- (* a second falsified literal: return -1 *)
+           exists (OReturn (VInt (-1)) h). split; [|left; reflexivity].
+           apply runs_for_body_abrupt; [exact Hc| |exact Logic.I].
+           unfold of_body. eapply runs_seq; [exact R1|]. eapply runs_seq; [exact R4|].
+           apply runs_seq_abrupt; [|exact Logic.I]. eapply runs_seq; [exact R5|].
+           eapply runs_if_true; [exact E6|]. apply runs_seq_abrupt; [|exact Logic.I].
+           eapply runs_if_true; [unfold st4, st3, st2, st1; ev; rewrite Eres; reflexivity|].
+           apply (runs_exec go_funs 1); [reflexivity|discriminate].
+        -- set (st5 := St (upd "res" (VInt lit) (locals st4)) h).
+           set (st6 := St (upd "ptr" (VInt (Z.of_nat k - 1)) (locals st5)) h).
+           destruct (IH ltac:(lia) ltac:(intros k0 Hk0; apply Hb; lia) lit st6) as (o & Ro & Ho);
+             try (unfold st6, st5, st4, st3, st2, st1; cbn [locals hp]; lk; first [assumption|reflexivity]).
+           exists o. split; [|exact Ho].
+           eapply runs_for_true; [exact Hc| |apply runs_skip|exact Ro].
+           unfold of_body. eapply runs_seq; [exact R1|]. eapply runs_seq; [exact R4|].
+           eapply runs_seq; [|apply Hptr; unfold st5, st4, st3, st2, st1; cbn [locals]; lk; exact Lptr].
+           eapply runs_seq; [exact R5|]. eapply runs_if_true; [exact E6|].
+           eapply runs_seq; [eapply runs_if_false;
+             [unfold st4, st3, st2, st1; ev; rewrite Eres; reflexivity|apply runs_skip]|].
+           apply runs_set. unfold st4, st3, st2, st1. ev. reflexivity.
+      * set (st6 := St (upd "ptr" (VInt (Z.of_nat k - 1)) (locals st4)) h).
+        destruct (IH ltac:(lia) ltac:(intros k0 Hk0; apply Hb; lia) res st6) as (o & Ro & Ho);
+          try (unfold st6, st4, st3, st2, st1; cbn [locals hp]; lk; first [assumption|reflexivity]).
+        exists o. split; [|exact Ho].
+        eapply runs_for_true; [exact Hc| |apply runs_skip|exact Ro].
+        unfold of_body. eapply runs_seq; [exact R1|]. eapply runs_seq; [exact R4|].
+        eapply runs_seq; [|apply Hptr; unfold st4, st3, st2, st1; cbn [locals]; lk; exact Lptr].
+        eapply runs_seq; [exact R5|]. eapply runs_if_false; [exact E6|apply runs_skip].
+Qed.
+
+Theorem onlyFalsified_run : forall h sw sc ws card vs sm strail model trail ptr lvl,
+  pbset_at h sw sc (ws, card) -> solver_at h vs sm strail model trail ->
+  -1 <= ptr < Z.of_nat (length trail) ->
+  (forall k, (Z.of_nat k <= ptr) -> 0 <= nth k trail 0 /\
+     (Z.to_nat (Z.quot (nth k trail 0%Z) 2) < length model)%nat /\
+     (Z.to_nat (Z.quot (nth k trail 0%Z) 2) < length ws)%nat) ->
+  run_to go_funs "pbSet.onlyFalsified" [pbset_val sw sc; vs; VInt ptr; VInt lvl] h
+    (OReturn (VInt (only_falsified (ws, card) model trail ptr lvl)) h).
+Proof.
+  intros h sw sc ws card vs sm strail model trail ptr lvl Hrep Hsol Hptr Hb.
+  pose proof Hsol as (fs & -> & _).
+  eapply run_to_intro; [reflexivity|reflexivity|]. rewrite src_onlyFalsified_shape.
+  eapply runs_seq; [apply runs_set; reflexivity|].
+  unfold set_local. cbn [locals hp upd String.eqb Ascii.eqb Bool.eqb].
+  set (st := St [("pb", pbset_val sw sc); ("s", VStruct fs); ("ptr", VInt ptr); ("lvl", VInt lvl);
+                 ("res", VInt (-1))] h).
+  destruct (onlyFalsified_loop h sw sc ws card fs sm strail model trail lvl Hrep Hsol (Z.to_nat (ptr + 1))
+              ltac:(lia) ltac:(intros k Hk; apply Hb; lia) (-1) st) as (o & Ro & Ho);
+    try reflexivity.
+  { unfold st. cbn [locals lookup String.eqb Ascii.eqb Bool.eqb]. do 2 f_equal. lia. }
+  unfold only_falsified. destruct Ho as [->|(st' & -> & Hh & Lres)].
+  - apply runs_seq_abrupt; [|exact Logic.I]. eapply runs_seq; [apply runs_skip|exact Ro].
+  - eapply runs_seq; [eapply runs_seq; [apply runs_skip|exact Ro]|].
+    rewrite <- Hh. apply (runs_return go_funs (EVar "res") st'). apply eval_var. exact Lres.
+Qed.
+
+(* ---- final forms of the corners and of onlyFalsified *)
+
+Theorem roundToOne_short_model_final_observation :
+  forall h sw sc ws card vs sm strail model trail locked lvl,
+  pbset_at h sw sc (ws, card) -> solver_at h vs sm strail model trail ->
+  s_arr sm <> s_arr sw -> s_arr sm <> s_arr sc ->
+  Z.abs (nth locked ws 0) <> 0 -> Z.abs (nth locked ws 0) <> 1 ->
+  (exists j, (j < length ws)%nat /\ nth j ws 0 <> 0 /\ (length model <= j)%nat) ->
+  panics "pbSet.roundToOne" [pbset_val sw sc; vs; VInt (Z.of_nat locked); VInt lvl] h /\
+  round_to_one model locked (ws, card) <> None.
+Proof.
+  intros h sw sc ws card vs sm strail model trail locked lvl H1 H2 D1 D2 W0 W1 Hex.
+  destruct (roundToOne_short_model_observation h sw sc ws card vs sm strail model trail locked lvl
+              H1 H2 D1 D2 W0 W1 Hex) as (R & E).
+  split; [apply panics_intro; exact R|exact E].
+Qed.
+
+Theorem backtrackLevel_out_of_range_final_observation : forall h sw sc ws card vs sm strail model trail lit,
+  pbset_at h sw sc (ws, card) -> solver_at h vs sm strail model trail ->
+  0 <= lit -> (length model <= Z.to_nat (Z.quot lit 2))%nat ->
+  panics "pbSet.backtrackLevel" [pbset_val sw sc; vs; VInt lit] h /\
+  backtrack_level model (Z.to_nat (Z.quot lit 2)) (ws, card) =
+  backtrack_ws 0 (Z.to_nat (Z.quot lit 2)) 0 model ws 1.
+Proof.
+  intros h sw sc ws card vs sm strail model trail lit H1 H2 Hl Hv.
+  destruct (backtrackLevel_out_of_range_observation h sw sc ws card vs sm strail model trail lit H1 H2 Hl Hv)
+    as (R & E).
+  split; [apply panics_intro; exact R|exact E].
+Qed.
+
+Theorem onlyFalsified_final : forall h sw sc ws card vs sm strail model trail ptr lvl,
+  pbset_at h sw sc (ws, card) -> solver_at h vs sm strail model trail ->
+  -1 <= ptr < Z.of_nat (length trail) ->
+  (forall k, (Z.of_nat k <= ptr) -> 0 <= nth k trail 0 /\
+     (Z.to_nat (Z.quot (nth k trail 0%Z) 2) < length model)%nat /\
+     (Z.to_nat (Z.quot (nth k trail 0%Z) 2) < length ws)%nat) ->
+  returns "pbSet.onlyFalsified" [pbset_val sw sc; vs; VInt ptr; VInt lvl] h
+    (VInt (only_falsified (ws, card) model trail ptr lvl)) h.
+Proof. intros. apply returns_intro. eapply onlyFalsified_run; eassumption. Qed.
